@@ -146,7 +146,10 @@ def run(rep):
               'iro' in kinds and 'bases' not in kinds,
               'the inherited view is built from __iro__ (sources %s)' % sorted(kinds),
               construct='iro', node=nd)
-    # the recursion/loop passes through every ancestor: covered in C15
+    # the recursion/loop passes through every ancestor, first definer wins, and
+    # nothing but the merged view is built or memoised on the way (C15 R15.1)
+    from . import specsem as _s4
+    _s4.names_and_descriptions(rep, imod, 'R17.4')
 
     # ---- R17.5 ---------------------------------------------------------------
     from .C18 import from_function_layout
